@@ -722,9 +722,18 @@ class Sem:
         v = self.resolve(sc, frame)
         # a scrutinee that is itself a match / if whose arms yield constructor values: `is` distributes over the arms
         vn = strip(v.node)
+        vframe = v.frame
+        if depth < 3 and not v.proj and v.bind is None and vn.get("k") in ("Call", "MethodCall") and not is_try(vn):
+            # the verdict of a private helper whose body ends in a match / if over constructor values: read in the helper
+            h2 = self.should_inline(vn, v.frame)
+            if h2 is not None:
+                f2 = self._enter(h2, vn, v.frame)
+                t2, tf2 = tail_value(self, h2["body"], f2)
+                if strip(t2).get("k") in ("Match", "If") and not [r_ for r_ in exprs(h2["body"], "Ret", into_closures=False) if not r_.get("x")]:
+                    vn, vframe = strip(t2), tf2
         if depth < 3 and not v.proj and v.bind is None and vn.get("k") in ("Match", "If") and not is_try(vn) and \
                 all(len(a) == 1 and "(" not in a[0] and "{" not in a[0] and a[0] not in ("?",) for a in alts):
-            f = self._is_of_branches(vn, {a[0] for a in alts}, v.frame, depth)
+            f = self._is_of_branches(vn, {a[0] for a in alts}, vframe, depth)
             if f is not None:
                 return f
         if strip(v.node).get("k") == "Tup" and not v.proj and v.bind is None:
@@ -766,6 +775,13 @@ class Sem:
             if diverges(body):
                 continue
             t = tail(body)
+            if t.get("k") in ("Match", "If") and not is_try(t) and depth < 5:
+                # a nested decision: the value is chosen further down
+                sub = self._is_of_branches(t, heads, frame, depth + 1)
+                if sub is None:
+                    return None
+                take.append(f_and([c, sub]))
+                continue
             h = ctor_head(t)
             if h is None:
                 return None
@@ -889,6 +905,11 @@ class Sem:
                         parts.append(self._is(st["init"], [st["pat"]], frame))
             if e.get("expr") is not None:
                 parts.append(self.survive(e["expr"], frame, depth + 1, with_try))
+            return f_and(parts)
+        if k in ("Assign", "AssignOp", "Call", "MethodCall", "Unary", "Cast", "AddrOf", "Field", "Index", "Tup", "Struct", "Use", "Type") and depth < 6:
+            # `x = match y { A(v) => v, _ => return .. }`, `f(match ..)`: control flows on only if every operand was evaluated
+            parts = [self.survive(c, frame, depth + 1, with_try) for c in children(e) if c.get("k") not in (None, "Closure") and
+                     not str(c.get("k", "")).startswith("P")]
             return f_and(parts)
         return ("true",)
 
